@@ -9,6 +9,7 @@ import (
 	"path"
 	"strconv"
 
+	"github.com/go-openapi/analysis/internal/antipanic"
 	"github.com/go-openapi/analysis/internal/debug"
 	"github.com/go-openapi/jsonpointer"
 	"github.com/go-openapi/spec"
@@ -451,7 +452,12 @@ DOWNREF:
 	}
 
 	// assess what schema we're ending with
-	sch, erv := spec.ResolveRefWithBase(sp, &currentRef, opts)
+	var sch *spec.Schema
+	erv := antipanic.Run(func() (erp error) {
+		sch, erp = spec.ResolveRefWithBase(sp, &currentRef, opts)
+
+		return erp
+	})
 	if erv != nil {
 		return nil, erv
 	}
